@@ -39,6 +39,7 @@ def generate(rnd, tier, index=0):
     regime = rnd.choice(["exact", "exact", "float"])
     if mode == "reorder":
         cfg, spare = gen.gen_cfg(rnd, with_np=rnd.random() < 0.5, np_names=("Radius", "LSHNearest"))
+        cfg["n_jobs"] = rnd.choice([1, 1, 2, 3])       # rows are hashed / arms are fit in several blocks
         ctxl = is_contextual(cfg)
         d = rnd.randint(1, 3)
         n = rnd.randint(2, 24)
